@@ -7,7 +7,7 @@ from ..core import AnalysisError, norm, walk_no_nested, Unfoldable
 
 META = {
     'design_ref': 'DESIGN.md §5 C16',
-    'technique': "abstract interpretation of globs_to_re on a basis of glob lists (all unit sequences up to length three over class representatives, pairs) with language equality between the produced pattern (under its flags and the consumer's match method) and the glob specification; loop-carried-state analysis of the character loop; interpretation of matches(), of the pattern cache over a history with failing translation, of find_files_paragraph for all truth assignments; frame rule (no memo in the lookup path); every consumer of the compiled pattern asks it with the method the translation is judged under",
+    'technique': "abstract interpretation of globs_to_re on a basis of glob lists (all unit sequences up to length three over class representatives, pairs) with language equality between the produced pattern (under its flags and the consumer's match method) and the glob specification; loop-carried-state analysis of the character loop; interpretation of matches(), of the pattern cache over a history with failing translation, of find_files_paragraph for all truth assignments; frame rule (no memo in the lookup path); every consumer of the compiled pattern asks it with the method the translation is judged under; matches() interpreted on a model pattern (reference regex of the statement) over eight pattern-list scenarios incl. illegal escapes before and after a covering pattern",
     'level_text': 'Static decision: the translation is character-wise (only an escaping backslash looks ahead), "*" denotes Σ*, "?" '
                   'denotes Σ (newline and "/" included), escapes denote their literal, other escapes raise the format error; with the way '
                   'the alternatives are joined and anchored, the consumer\'s match call accepts exactly the whole-name matches; the cache '
@@ -196,35 +196,89 @@ def r1_translation(rep, src, tier='quick'):
         rep.note('C16.R1: the character loop of globs_to_re carries %s between iterations; basis extended to length %d' % (sorted(carried - cursor_like), depth))
 
 
+def _ref_glob_regex(g):
+    """the statement's reading of one pattern: '*' any run, '?' one character, backslash escapes '*', '?' and itself; None for any
+    other escape"""
+    import re as _re
+    out, i = '', 0
+    while i < len(g):
+        c = g[i]
+        if c == '\\':
+            if i + 1 >= len(g) or g[i + 1] not in '*?\\':
+                return None
+            out += _re.escape(g[i + 1])
+            i += 2
+            continue
+        out += '(?s:.*)' if c == '*' else '(?s:.)' if c == '?' else _re.escape(c)
+        i += 1
+    return out
+
+
 def r2_matches(rep, src):
-    """FilesParagraph.matches interpreted: no pattern → False; otherwise the outcome of the match call"""
+    """FilesParagraph.matches interpreted on paragraphs whose translated pattern is a model object: the translation (globs_to_re,
+    however it is reached -- through files_pattern or glob by glob) refuses a list that holds an illegal escape, and the model
+    pattern answers match / fullmatch / search as the reference regex of the statement does.  No pattern -> False; otherwise the
+    answer is whether one of the patterns covers the WHOLE name, and an illegal escape anywhere in the list is reported whichever
+    pattern would have matched"""
+    import re as _re
     from .. import heap as H
     mt = src.func(M + ':FilesParagraph.matches')
     mod = src.mod(M)
-    # the Files field of the scenario paragraph is consistent with the outcome the pattern gives: a wildcard-free list whose first
-    # entry escapes a backslash (so the name that matches is not the text of the entry)
-    scen = {(True, True): ((r'a\\b', 'debian/rules'), 'a\\b'), (True, False): ((r'a\\b', 'debian/rules'), r'a\\b'), (False, None): ((), 'some/file')}
-    for pat_present, hit, want in ((False, None, False), (True, True, True), (True, False, False)):
+    cases = [(None, 'some/file', False, 'no Files pattern'),
+             ((r'a\\b', 'debian/rules'), 'a\\b', True, 'a list whose first entry escapes a backslash, the name it stands for'),
+             ((r'a\\b', 'debian/rules'), r'a\\b', False, 'the same list, the text of the entry as name'),
+             (('deb', 'debian/r?les'), 'debian/rules', True, 'a first pattern that is a prefix of the name, a second that covers it'),
+             (('deb', 'x*'), 'debian', False, 'a pattern that is only a prefix of the name'),
+             (('debian/*', 'bad\\x'), 'debian/rules', 'error', 'an illegal escape AFTER a pattern that covers the name'),
+             (('bad\\x', 'debian/*'), 'debian/rules', 'error', 'an illegal escape before a pattern that covers the name'),
+             (('src/*', 'trailing\\'), 'README', 'error', 'a trailing backslash, no pattern covers the name')]
+    for globs, name, want, label in cases:
         asked = []
-        globs, name = scen[(pat_present, hit)]
 
-        def fm(it, args, kw, hit=hit):
-            asked.append(args[1:])
-            return it.h.alloc('Match', {}) if hit else None
-        heap = H.Heap(mod, hooks={'.files_pattern': lambda it, args, kw, p=pat_present: it.h.alloc('Pattern', {}, name='@pat') if p else None,
-                                  '.fullmatch': fm, '.match': fm, '.search': fm})
+        def translate(it, args, kw):
+            gl = [g_.concrete() if hasattr(g_, 'concrete') else g_ for g_ in it.seq(args[0])]
+            if any(not isinstance(g_, str) for g_ in gl):
+                raise AnalysisError('C16.R2: globs_to_re is handed %r' % (gl,))
+            if any(_ref_glob_regex(g_) is None for g_ in gl):
+                raise H.Raised('MachineReadableFormatError', it.h.version, 0)
+            return it.h.alloc('Pattern', {'globs': tuple(gl)})
+
+        def asker(meth):
+            def hk(it, args, kw):
+                pat = args[0]
+                if not (isinstance(pat, H.Ref) and it.h.objs[pat.name]['__class__'] == 'Pattern'):
+                    return NotImplemented
+                nm_ = args[1].concrete() if hasattr(args[1], 'concrete') else args[1]
+                asked.append((meth, nm_))
+                rxs = '|'.join('(?:%s)' % _ref_glob_regex(g_) for g_ in it.h.objs[pat.name]['globs'])
+                # (the real translation anchors only the end of its LAST alternative: match() lets an earlier alternative answer for a prefix)
+                gs_ = it.h.objs[pat.name]['globs']
+                real = '|'.join(_ref_glob_regex(g_) for g_ in gs_) + r'\Z' if gs_ else r'\Z'
+                m_ = getattr(_re.compile(real), meth)(nm_) if isinstance(nm_, str) else None
+                return it.h.alloc('Match', {}) if m_ is not None else None
+            return hk
+        hooks = {'globs_to_re': translate, '.fullmatch': asker('fullmatch'), '.match': asker('match'), '.search': asker('search')}
+        if globs is None:
+            hooks['.files_pattern'] = lambda it, args, kw: None
+        else:
+            hooks['.files_pattern'] = lambda it, args, kw, g=globs: translate(it, [g], {})
+        heap = H.Heap(mod, hooks=hooks)
         heap.symbolic_strings = True
-        me = heap.alloc('FilesParagraph', {'files': globs}, name='@files')
-        what = 'matches(): pattern %s%s' % ('present' if pat_present else 'absent', '' if hit is None else (', name %s' % ('matches' if hit else 'does not match')))
+        me = heap.alloc('FilesParagraph', {'files': globs if globs is not None else ()}, name='@files')
+        what = 'matches(%r) on %s' % (name, label)
         try:
             r = H.Interp(heap).call(H.Closure(mt.node, {}, me, mt.cls), [name])
+            out = r
         except H.Raised as x:
-            rep.fail('C16.R2', mt.site, what, 'raises %s' % x.exc, where=mt.where)
-            continue
-        if r is want and (not pat_present or asked == [[name]]):
-            rep.ok('C16.R2', mt.site, what, repr(r))
+            out = 'error' if x.exc.split('.')[-1] == 'MachineReadableFormatError' else 'raises %s' % x.exc
+        if out is want or out == want == 'error':
+            rep.ok('C16.R2', mt.site, what, repr(out))
+        elif want == 'error':
+            rep.fail('C16.R2', mt.site, what, 'answers %r for the patterns %r: the illegal escape is not reported as a format error (the patterns are tried one at a time and the answer is '
+                     'given before the bad one is translated)' % (out, list(globs)), where=mt.where)
         else:
-            rep.fail('C16.R2', mt.site, what, 'returns %r (pattern asked with %r); the answer must be exactly whether the pattern matches the given name' % (r, asked), where=mt.where)
+            rep.fail('C16.R2', mt.site, what, 'answers %r for the patterns %r (asked: %r); the answer must be exactly whether one of the patterns covers the whole name'
+                     % (out, list(globs) if globs is not None else None, asked), where=mt.where)
 
 
 def r3_cache(rep, src):
@@ -372,3 +426,5 @@ def check(src, rep, tier):
     rep.guard('C16.R2', r2_matches, src)
     rep.guard('C16.R3', r3_cache, src)
     rep.guard('C16.R4', r4_last_match, src)
+    from . import common
+    rep.guard('C16.R1', common.check_error_construction, src, 'C16.R1', 'copyright', None, 0)
